@@ -2,3 +2,9 @@ pub mod bed;
 pub mod coverage;
 pub mod extsort;
 mod intervaltree;
+
+/// Verification seam: re-export of the private interval index module.
+#[cfg(feature = "verif-hooks")]
+pub mod verif_hooks {
+    pub use crate::intervaltree::{Interval, IterDepth, IterFind, IterLapper, Lapper};
+}
